@@ -52,4 +52,44 @@ mod verif_c13_wit {
         let n = got.expect("an answerable query is not turned into an error");
         assert!(n >= 1 && n <= 2, "between one and k routes");
     }
+
+    fn yen(g: crate::model::network::graph::Graph, src: usize, dst: usize, k: usize) -> Result<Vec<Vec<usize>>, String> {
+        use crate::model::frontier::default::no_restriction::NoRestriction;
+        use crate::model::termination::termination_model::TerminationModel;
+        let si = W::instance(g, std::sync::Arc::new(NoRestriction {}), TerminationModel::IterationsLimit { limit: 10_000 });
+        let q = serde_json::json!({});
+        let query = KspQuery { source: VertexId(src), target: VertexId(dst), user_query: &q, k };
+        run(&query, &KspTerminationCriteria::Exact, &RouteSimilarityFunction::AcceptAll, &si, &SearchAlgorithm::Dijkstra)
+            .map(|r| r.routes.iter().map(|p| p.iter().map(|e| e.edge_id.0).collect()).collect()).map_err(|e| e.to_string())
+    }
+
+    /// Yen's, k = 2: the least-cost route 0->1->2->3 (three edges) has ONE spur index (spur vertex 1); vertex 1 has a detour 1->4->3.
+    /// A second spur vertex does not exist, so nothing can fail: the driver must return the least-cost route and the detour.
+    #[test]
+    fn c13_wit_yen_three_edge_route_with_detour() {
+        let g = W::graph(5, &[(0, 1, 1.0), (1, 2, 1.0), (2, 3, 1.0), (1, 4, 3.0), (4, 3, 3.0)]);
+        let routes = yen(g, 0, 3, 2).expect("an answerable query is not turned into an error");
+        assert_eq!(routes, vec![vec![0, 1, 2], vec![0, 3, 4]], "the least-cost route first, then the detour; at most k routes, no duplicates");
+    }
+
+    /// Yen's, k = 2: the least-cost route 0->1->2->3->4 (four edges) has two spur indices (spur vertices 1 and 2). Vertex 1 has a detour
+    /// (1->5->4); vertex 2 has NONE once its route edge is cut.  Property: "without turning an answerable query into an error because
+    /// one alternative search failed" -- the query is answerable (two routes exist), so the result is Ok with 1..=2 routes.
+    #[test]
+    fn c13_wit_yen_spur_vertex_without_alternative() {
+        let g = W::graph(6, &[(0, 1, 1.0), (1, 2, 1.0), (2, 3, 1.0), (3, 4, 1.0), (1, 5, 3.0), (5, 4, 3.0)]);
+        let routes = yen(g, 0, 4, 2).expect("an answerable query is not turned into an error because one spur search found no path");
+        assert!(!routes.is_empty() && routes.len() <= 2, "between one and k routes, found {:?}", routes);
+        assert_eq!(routes[0], vec![0, 1, 2, 3]);
+    }
+
+    /// Yen's, k = 2: the least-cost route 0->1->2->3->4 (four edges); BOTH spur vertices have a detour (1->5->4 and 2->6->4).
+    /// Property: between one and k routes, no two with the same edge sequence.
+    #[test]
+    fn c13_wit_yen_at_most_k_distinct_routes() {
+        let g = W::graph(7, &[(0, 1, 1.0), (1, 2, 1.0), (2, 3, 1.0), (3, 4, 1.0), (1, 5, 3.0), (5, 4, 3.0), (2, 6, 3.0), (6, 4, 3.0)]);
+        let routes = yen(g, 0, 4, 2).expect("an answerable query is not turned into an error");
+        assert!(!routes.is_empty() && routes.len() <= 2, "between one and k = 2 routes, found {} : {:?}", routes.len(), routes);
+        for i in 0..routes.len() { for j in 0..i { assert_ne!(routes[i], routes[j], "no two routes have the same edge sequence: {:?}", routes); } }
+    }
 }
